@@ -116,10 +116,16 @@ Letters(c) == IF c \in ProjClasses THEN 1..NTrans ELSE 1..NIso
 NV == IF Dim = 2 THEN 4 ELSE 3        \* vertices of a polygon: different from N and from 2
 
 \* base matrices of the transformation-valued unit classes
+NegMat(M) == [i \in 1..Len(M) |-> [j \in 1..Len(M[i]) |-> Neg(M[i][j])]]
 BaseMat(c, i) ==
   LET ms == << MatMul(R(1), R(6)), MatMul(MatMul(R(1), R(4)), R(7)), MatMul(R(6), R(2)), MatMul(MatMul(R(4), R(5)), R(2)),
                MatMul(MatMul(R(7), R(1)), R(4)), MatMul(MatMul(MatMul(R(3), R(4)), R(5)), R(6)), MatMul(MatMul(R(4), R(7)), MatMul(R(2), R(3))) >>
-  IN IF c = "Transformation" /\ i % 2 = 0 THEN MatMul(Shear, ms[i]) ELSE ms[i]
+      \* isometry-valued units: a hyperbolic element, the NEGATIVE of a hyperbolic element (the same isometry,
+      \* negative eigenvalues on the light cone), an elliptic element (rotation by a right angle: non-real
+      \* eigenvalues), an orientation reversing element, the negative of a glide
+      is == << MatMul(R(1), R(6)), NegMat(MatMul(R(6), R(2))), MatMul(R(7), R(1)), MatMul(MatMul(R(4), R(5)), R(2)),
+               NegMat(MatMul(MatMul(R(7), R(1)), R(4))), ms[6], ms[7] >>
+  IN IF c = "Isometry" THEN is[i] ELSE IF i % 2 = 0 THEN MatMul(Shear, ms[i]) ELSE ms[i]
 
 Base(c, i) ==
   CASE c \in {"Point", "HPoint"} -> <<P[i]>>
@@ -237,7 +243,8 @@ Next == /\ Len(w) < MaxWord
 \* FixedBy on the fixed points the library returns.
 Loxodromic ==
   /\ cls = "Isometry" /\ Dim = 2
-  /\ LET M == Prim(cls, k, w)
+  /\ LET M0 == Prim(cls, k, w)
+         M == IF M0[1][1] < 0 THEN NegMat(M0) ELSE M0       \* M and -M are the same isometry
      IN /\ Det3(M[1], M[2], M[3], 1, 2, 3) = 1 /\ M[1][1] > 0
         /\ M[1][1] + M[2][2] + M[3][3] > 3
 
@@ -254,6 +261,24 @@ EmitObs == PrintT("UNIT " \o ToJson(Obs))
 Gram == [i \in 1..K |-> [j \in 1..K |-> <<Mink(P[i], P[j]), Mink(P[i], P[i]), Mink(P[j], P[j])>>]]
 \* which transformations have two real fixed ideal points (trace > N: hyperbolic elements), det
 Trans == [i \in 1..NTrans |-> [m |-> T[i], iso |-> i <= NIso]]
+\* projective transformations with a REPEATED eigenvalue: M = I + w^T f with f.w = Mu - 1 has the eigenvalue 1 on the
+\* hyperplane ker f (multiplicity N - 1) and the simple eigenvalue Mu on w (acting on row vectors: x M = x + (x.w^T) f)
+EigW == IF Dim = 2 THEN << <<1, 2, 0>>, <<1, 0, 0>>, <<0, 1, 1>>, <<2, 1, -1>>, <<1, -1, 1>> >>
+        ELSE << <<1, 2, 0, 0>>, <<1, 0, 0, 1>>, <<0, 1, 1, 0>>, <<2, 1, -1, 0>>, <<1, -1, 1, 1>> >>
+EigF == IF Dim = 2 THEN << <<1, 0, 1>>, <<1, 3, -2>>, <<2, 1, 0>>, <<1, 0, 1>>, <<0, 1, 2>> >>
+        ELSE << <<1, 0, 1, 2>>, <<1, 3, -2, 0>>, <<2, 1, 0, -1>>, <<1, 0, 1, 3>>, <<0, 1, 2, 0>> >>
+EigMu == 2
+EigMat(i) == [a \in 1..N |-> [b \in 1..N |-> (IF a = b THEN 1 ELSE 0) + EigW[i][a] * EigF[i][b]]]
+ASSUME \A i \in 1..Len(EigW) :
+         LET M == EigMat(i) D1 == [a \in 1..N |-> [b \in 1..N |-> M[a][b] - (IF a = b THEN 1 ELSE 0)]]
+             D2 == [a \in 1..N |-> [b \in 1..N |-> M[a][b] - (IF a = b THEN EigMu ELSE 0)]]
+         IN /\ SumTo([a \in 1..N |-> EigW[i][a] * EigF[i][a]], N) = EigMu - 1
+            \* rank(M - I) = 1: all 2x2 minors vanish and it is not zero; (M - I)(M - Mu I) = 0: diagonalisable
+            /\ \A a, b, c, d \in 1..N : D1[a][b] * D1[c][d] = D1[a][d] * D1[c][b]
+            /\ \E a, b \in 1..N : D1[a][b] # 0
+            /\ MatMul(D1, D2) = [a \in 1..N |-> [b \in 1..N |-> 0]]
+ASSUME PrintT("EIG " \o ToJson([dim |-> Dim, lam |-> 1, mu |-> EigMu, mats |-> [i \in 1..Len(EigW) |-> EigMat(i)]]))
+
 \* elements of SL(2,Z) for the vectorised SL(2) maps
 SL2 == << <<<<1, 1>>, <<0, 1>>>>, <<<<2, 1>>, <<1, 1>>>>, <<<<1, 0>>, <<2, 1>>>>, <<<<3, 2>>, <<4, 3>>>>,
           <<<<0, -1>>, <<1, 0>>>>, <<<<2, -1>>, <<-3, 2>>>>, <<<<5, 2>>, <<2, 1>>>> >>
